@@ -2,6 +2,7 @@
 //! `verif` feature) on case files and prints one canonical result line per case.
 mod bc;
 mod c07;
+mod ext;
 mod meta;
 mod util;
 
@@ -18,6 +19,7 @@ fn main() {
         "bc" => bc::run(&lines),
         "meta" => meta::run(&lines),
         "resp" => meta::run_resp(&lines),
+        "ext" => ext::run(&lines),
         other => {
             eprintln!("unknown property {}", other);
             std::process::exit(2);
